@@ -126,7 +126,7 @@ func runC01(c *lib.Ctx) {
 		}
 		return true // no exits in C01 programs
 	}
-	evRun(c, c01SweepCases(), c.Scale(20000, 400000), false, avoid, c01Relies)
+	evRun(c, c01SweepCases(), c.Scale(20000, 200000), false, avoid, c01Relies)
 	c.Ev.Coverage["rule"] = "cases = programs; sweep = one minimal program per evaluation-order / binding / closure / multiple-value rule (exhaustive, seed independent); composite = typed generator over the core forms, nesting depth <= 6, trace calls in every evaluated position; compared: outcome kind, printed primary value or condition class, ordered trace; non-trivial = nesting >= 2, trace length >= 2, no generator-induced type error; distinct by program text"
 }
 
